@@ -186,6 +186,23 @@ def run(chk):
         d.update(a)
         d["simagx"], d["sibdry"] = 0.25, -1.5
         axes_req.append(d)
+    # limiter contours as real files have them: finely resolved (the last point a few mm from the first, NOT equal to it), exactly closed, a triangle:
+    # the wall read_geqdsk hands on is the limiter of the file, vertex for vertex
+    for kind in ("fine", "closed", "triangle"):
+        d = rand_data(rng, 5, 5, optional=8)
+        d.update(axes_data[0], nx=5, ny=5)
+        d["simagx"], d["sibdry"] = 0.25, -1.5
+        if kind == "triangle":
+            pts = [(1.0, -0.5), (1.8, -0.5), (1.4, 0.6)]
+        else:
+            m = 40
+            pts = [(1.4 + 0.4 * math.cos(2 * math.pi * k / m), 0.5 * math.sin(2 * math.pi * k / m)) for k in range(m)]
+            if kind == "fine":
+                pts.append((1.4 + 0.4 * math.cos(-0.012), 0.5 * math.sin(-0.012)))      # 6 mm short of the first point
+            else:
+                pts.append(pts[0])
+        d["rlim"], d["zlim"] = [p[0] for p in pts], [p[1] for p in pts]
+        axes_req.append(d)
     rc, res, o, e = common.run_impl_json("impl/geqdsk.py", dict(f2s=[x.hex() for x in floats], files=files, texts=texts), timeout=900)
     if res is None:
         chk.tie_broken("impl/geqdsk.py", f"implementation run failed rc={rc}: {(o + e)[-1500:]}")
